@@ -243,14 +243,19 @@ def check_boxcar(case, ctx):
         s = hi
     else:
         s = lo + case["s_frac"] % (hi - lo + 1)
-    x = np.zeros(n, dtype=np.float32)
-    x[s : s + w] = case["amp"]
+    # the noiseless pulse sits on a flat baseline of any level and sign ("unchanged by adding a constant"): the scale
+    # estimate of such data is exactly zero
+    base = [0.0, 0.0, -1.0, 10.0, -7.5, 1000.0][(case.get("s_frac", 0) + s + n) % 6]
+    x = np.full(n, base, dtype=np.float32)
+    x[s : s + w] += np.float32(case["amp"])
     try:
         mf = MatchedFilter(x, temp_kind="boxcar", nbins_max=case["nbins_max"], spacing_factor=case["spacing"])
     except Exception as exc:  # noqa: BLE001
         raise Violation(f"boxcar:raised:{type(exc).__name__}", f"{case}: {exc!r}") from exc
+    if not np.isfinite(float(mf.snr)) or not np.all(np.isfinite(np.asarray(mf.convs))):
+        raise Violation("boxcar:responses-not-finite", f"n={n} boxcar width {w} at {s} amp {case['amp']} on a baseline of {base}: snr {mf.snr!r}")
     if int(mf.best_temp.width) != w or int(mf.peak_bin) != s:
-        raise Violation("boxcar:not-recovered", f"n={n} L={L} boxcar width {w} at {s} amp {case['amp']}: recovered width "
+        raise Violation("boxcar:not-recovered", f"n={n} L={L} boxcar width {w} at {s} amp {case['amp']} baseline {base}: recovered width "
                         f"{mf.best_temp.width} at bin {mf.peak_bin} (snr {mf.snr!r})")
     lab = ["boxcar"]
     if L != n:
